@@ -105,7 +105,7 @@ def run(tier):
     check.cov["traces_validated_against_impl"] += len(inst)
 
     # parsed trees: dump (4 option combinations) parsed and compared with a reflection walk of the tree
-    progs = inputs.clean_programs(tier, check)
+    progs = inputs.programs(check, tier) + inputs.byte_programs()
     res = wp.run([{"op": "dump_check", "src": p["src"], "ver": p["ver"]} for p in progs])
     n = 0
     for p, r in zip(progs, res):
